@@ -134,6 +134,10 @@ func (o *Overlay) TransmitMsg(onetMsg *ProtocolMsg, io MessageProxy) error {
 	if onetMsg != nil && onetMsg.From != nil {
 		log.TraceID(onetMsg.From.RoundID[:])
 	}
+	if onetMsg == nil || onetMsg.To == nil {
+		// The destination token comes from the wire and is dereferenced below.
+		return xerrors.New("protocol message without destination token")
+	}
 	log.Lvl3("got new message of type:", onetMsg.MsgType)
 	// Get the tree if it exists and prevent any pending deletion
 	// if required. The tree will be clean when this instance is
